@@ -1,0 +1,289 @@
+//go:build verif
+
+package replication
+
+// Contract for ROWS_EVENT decoding (property C09: "rows events split exactly"; glue of C01).
+//
+// Body layout (MySQL internals, Rows_log_event), positions relative to d = ev[headerLength:]:
+//   idw     table id (4 bytes when the post-header is 6 bytes long, else 6)
+//   2       flags
+//   [v2]    2-byte length of the extra data (the two bytes included), then the extra data
+//   lenenc  column count cc
+//   (cc+7)/8 bytes "columns present" bitmap of the before image   (UPDATE, DELETE)
+//   (cc+7)/8 bytes "columns present" bitmap of the after image    (WRITE, UPDATE)
+//   rows:   per image a NULL bitmap with one bit per *present* column, then the cells of the present, non-NULL
+//           columns in column order, each as long as the length rule of its type says (specCellLen)
+//
+// What is decided: the header and bitmap fields, and for every row, by ghost accumulation at the end of each
+// iteration: its NULL bitmaps sit where the previous row ended, are as wide as the number of present columns
+// (population count of the columns bitmap), each image starts right behind its NULL bitmap and ends exactly where
+// the length rule puts the end of the last present non-NULL cell, and the next row starts there.
+//
+// What is assumed, not decided, in this unit: that every NULL bitmap and every cell lies inside the buffer (the
+// body is well formed). These are the preconditions of newBitmap and cellLength at the calls inside the row loop;
+// the check lists them as assumed obligations (they are excluded by name in units.json).
+
+import (
+	"github.com/Breeze0806/gobinlog/internal/vspec"
+)
+
+func specRowsV2(typ byte) bool {
+	return typ == eWriteRowsEventV2 || typ == eUpdateRowsEventV2 || typ == eDeleteRowsEventV2
+}
+
+func specRowsType(typ byte) bool {
+	return typ == eWriteRowsEventV1 || typ == eUpdateRowsEventV1 || typ == eDeleteRowsEventV1 || specRowsV2(typ)
+}
+
+func specRowsHasIdentify(typ byte) bool {
+	return typ == eUpdateRowsEventV1 || typ == eUpdateRowsEventV2 || typ == eDeleteRowsEventV1 || typ == eDeleteRowsEventV2
+}
+
+func specRowsHasData(typ byte) bool {
+	return typ == eWriteRowsEventV1 || typ == eWriteRowsEventV2 || typ == eUpdateRowsEventV1 || typ == eUpdateRowsEventV2
+}
+
+// width of the table id
+func specRowsIDW(f BinlogFormat, typ byte) int {
+	if f.HeaderSizes[typ-1] == 6 {
+		return 4
+	}
+	return 6
+}
+
+// position of the length-encoded column count
+func specRowsCountPos(d []byte, f BinlogFormat, typ byte) int {
+	p := specRowsIDW(f, typ) + 2
+	if specRowsV2(typ) {
+		p += int(specLE16(d, p))
+	}
+	return p
+}
+
+func specRowsColumnCount(d []byte, f BinlogFormat, typ byte) int {
+	return int(specLenEncValue(d, specRowsCountPos(d, f, typ)))
+}
+
+// position of the first columns-present bitmap
+func specRowsBitmapsPos(d []byte, f BinlogFormat, typ byte) int {
+	cp := specRowsCountPos(d, f, typ)
+	return cp + specLenEncSize(d[cp])
+}
+
+func specBitmapBytes(count int) int { return (count + 7) / 8 }
+
+// position of the first row
+func specRowsFirstRow(d []byte, f BinlogFormat, typ byte) int {
+	p := specRowsBitmapsPos(d, f, typ)
+	nb := specBitmapBytes(specRowsColumnCount(d, f, typ))
+	if specRowsHasIdentify(typ) {
+		p += nb
+	}
+	if specRowsHasData(typ) {
+		p += nb
+	}
+	return p
+}
+
+// the fixed part of the body lies inside the buffer and the table map has one entry per column
+func specRowsHeaderOK(ev binlogEvent, f BinlogFormat, tm *TableMap) bool {
+	if !(specValidFormat(f) && len(ev) >= int(f.HeaderLength) && len(ev) >= 5 && specRowsType(ev[4]) && int(ev[4]) <= len(f.HeaderSizes) && tm != nil) {
+		return false
+	}
+	typ := ev[4]
+	d := ev[int(f.HeaderLength):]
+	idw := specRowsIDW(f, typ)
+	if len(d) < idw+4 {
+		return false
+	}
+	cp := specRowsCountPos(d, f, typ)
+	if cp >= len(d) || specLenEncSize(d[cp]) == 0 || len(d)-cp < specLenEncSize(d[cp]) || specLenEncValue(d, cp) > 1<<24 {
+		return false
+	}
+	cc := specRowsColumnCount(d, f, typ)
+	return specRowsFirstRow(d, f, typ) <= len(d) && len(tm.Types) == cc && len(tm.Metadata) == cc
+}
+
+// ---- one image of a row ----
+
+func specBitV(b Bitmap, i int) bool { return specBit(b.data, i) }
+
+// number of set bits among the first n (by value: the bitmaps of a rows event live in local structs)
+func specPopV(b Bitmap, n int) int { return specPopcount(&b, n) }
+
+// is column c present and not NULL in the image?
+func specHasCellV(cols Bitmap, nulls Bitmap, c int) bool {
+	return specBitV(cols, c) && !specBitV(nulls, specPopV(cols, c))
+}
+
+// position (in d) of column c's cell of the image whose cells start at start
+func specRowCellPos(tm *TableMap, cols Bitmap, nulls Bitmap, d []byte, start int, c int) int {
+	if c <= 0 {
+		return start
+	}
+	p := specRowCellPos(tm, cols, nulls, d, start, c-1)
+	if specHasCellV(cols, nulls, c-1) {
+		return p + specCellLen(d, p, tm.Types[c-1], tm.Metadata[c-1])
+	}
+	return p
+}
+
+// one image of a row: its NULL bitmap is the window of d at at, one bit per present column; the image is the
+// window of d from behind the NULL bitmap to the end of the last cell; result: that end (-1: not as specified)
+func specRowImageEnd(tm *TableMap, cols Bitmap, nulls Bitmap, image []byte, d []byte, at int, cc int) int {
+	start := at + specBitmapBytes(nulls.count)
+	end := specRowCellPos(tm, cols, nulls, d, start, cc)
+	if nulls.count == specPopV(cols, cc) && len(nulls.data) == specBitmapBytes(nulls.count) && vspec.Window(nulls.data, d, at, start) &&
+		vspec.Window(image, d, start, end) {
+		return end
+	}
+	return -1
+}
+
+// the row that starts at at ends at end, with both images as specified
+func specRowOK(row Row, res Rows, tm *TableMap, d []byte, at int, end int, hasIdentify bool, hasData bool, cc int) bool {
+	p := at
+	if hasIdentify {
+		p = specRowImageEnd(tm, res.IdentifyColumns, row.NullIdentifyColumns, row.Identify, d, p, cc)
+		if p < 0 {
+			return false
+		}
+	}
+	if hasData {
+		p = specRowImageEnd(tm, res.DataColumns, row.NullColumns, row.Data, d, p, cc)
+		if p < 0 {
+			return false
+		}
+	}
+	return p == end
+}
+
+// ---- ghost state: every row appended so far was, when it was appended, what specRowOK demands; where the row
+// being decoded starts ----
+
+var vcRowsOK bool
+var vcRowStart int
+
+func vc_hook_loopentry_binlogEvent_Rows_1(pos int) {
+	vcRowsOK = true
+	vcRowStart = pos
+}
+
+// end of an iteration of the row loop: the row just appended is checked, the next one starts here
+func vc_hook_loopstep_binlogEvent_Rows_1(pos int, result Rows, data []byte, tm *TableMap, hasIdentify bool, hasData bool, columnCount int) {
+	n := len(result.Rows)
+	vcRowsOK = vcRowsOK && n >= 1 && specRowOK(result.Rows[n-1], result, tm, data, vcRowStart, pos, hasIdentify, hasData, columnCount)
+	vcRowStart = pos
+}
+
+// ---- contract ----
+
+func vc_binlogEvent_Rows_requires(ev binlogEvent, f BinlogFormat, tm *TableMap) bool {
+	return specRowsHeaderOK(ev, f, tm)
+}
+
+// the columns-present bitmaps as decoded from the header (unchanged by the row loop)
+func specRowsBitmapsAre(res Rows, d []byte, f BinlogFormat, typ byte) bool {
+	cc := specRowsColumnCount(d, f, typ)
+	nb := specBitmapBytes(cc)
+	p := specRowsBitmapsPos(d, f, typ)
+	if specRowsHasIdentify(typ) {
+		if !(res.IdentifyColumns.count == cc && len(res.IdentifyColumns.data) == nb && vspec.Window(res.IdentifyColumns.data, d, p, p+nb)) {
+			return false
+		}
+		p += nb
+	}
+	if specRowsHasData(typ) {
+		if !(res.DataColumns.count == cc && len(res.DataColumns.data) == nb && vspec.Window(res.DataColumns.data, d, p, p+nb)) {
+			return false
+		}
+	}
+	return true
+}
+
+// row loop (in parts: each part is its own obligation)
+func vc_binlogEvent_Rows_loop1_inv(typ byte, ev binlogEvent, hasIdentify bool, hasData bool, data []byte, f BinlogFormat) bool {
+	return typ == ev[4] && hasIdentify == specRowsHasIdentify(typ) && hasData == specRowsHasData(typ) &&
+		vspec.Window(data, ev, int(f.HeaderLength), len(ev))
+}
+
+func vc_binlogEvent_Rows_loop1_inv_header(columnCount int, data []byte, f BinlogFormat, typ byte, result Rows) bool {
+	return columnCount == specRowsColumnCount(data, f, typ) && columnCount >= 0 && columnCount <= 1<<24 &&
+		result.Flags == specLE16(data, specRowsIDW(f, typ))
+}
+
+func vc_binlogEvent_Rows_loop1_inv_bitmaps(result Rows, data []byte, f BinlogFormat, typ byte) bool {
+	return specRowsBitmapsAre(result, data, f, typ)
+}
+
+func vc_binlogEvent_Rows_loop1_inv_counts(hasIdentify bool, hasData bool, numIdentifyColumns int, numDataColumns int, result Rows, columnCount int) bool {
+	return (!hasIdentify || numIdentifyColumns == specPopV(result.IdentifyColumns, columnCount)) &&
+		(!hasData || numDataColumns == specPopV(result.DataColumns, columnCount))
+}
+
+// every prefix count of a columns bitmap is within [0, number of present columns] (from BitCount's contract)
+func vc_binlogEvent_Rows_loop1_inv_mono(hasIdentify bool, hasData bool, numIdentifyColumns int, numDataColumns int, result Rows, columnCount int) bool {
+	return (!hasIdentify || vspec.Forall(0, columnCount, func(c int) bool {
+		return specPopV(result.IdentifyColumns, c) >= 0 && specPopV(result.IdentifyColumns, c+1) <= numIdentifyColumns
+	})) && (!hasData || vspec.Forall(0, columnCount, func(c int) bool {
+		return specPopV(result.DataColumns, c) >= 0 && specPopV(result.DataColumns, c+1) <= numDataColumns
+	}))
+}
+
+func vc_binlogEvent_Rows_loop1_inv_rows(pos int, data []byte, f BinlogFormat, typ byte) bool {
+	return pos >= specRowsFirstRow(data, f, typ) && pos <= len(data) && pos == vcRowStart && vcRowsOK
+}
+
+func vc_binlogEvent_Rows_loop1_inv_owned(result Rows) bool { return vspec.Owned(result.Rows) }
+
+// before image: position, NULL-bitmap index
+func vc_binlogEvent_Rows_loop2_inv(c int, valueIndex int, pos int, startPos int, row Row, result Rows, data []byte, tm *TableMap, columnCount int, numIdentifyColumns int) bool {
+	return c >= 0 && c <= columnCount && valueIndex == specPopV(result.IdentifyColumns, c) &&
+		pos == specRowCellPos(tm, result.IdentifyColumns, row.NullIdentifyColumns, data, startPos, c) &&
+		startPos >= 0 && startPos <= pos && pos <= len(data)
+}
+
+// after image
+func vc_binlogEvent_Rows_loop3_inv(c int, valueIndex int, pos int, startPos int, row Row, result Rows, data []byte, tm *TableMap, columnCount int, numDataColumns int) bool {
+	return c >= 0 && c <= columnCount && valueIndex == specPopV(result.DataColumns, c) &&
+		pos == specRowCellPos(tm, result.DataColumns, row.NullColumns, data, startPos, c) &&
+		startPos >= 0 && startPos <= pos && pos <= len(data)
+}
+
+func vc_binlogEvent_Rows_ensures_header(ev binlogEvent, f BinlogFormat, tm *TableMap, out Rows, err error) bool {
+	if err != nil {
+		return true
+	}
+	d := ev[int(f.HeaderLength):]
+	return out.Flags == specLE16(d, specRowsIDW(f, ev[4])) && specRowsBitmapsAre(out, d, f, ev[4])
+}
+
+// every row is as specified and the rows tile the body: the first starts behind the bitmaps, each next one where
+// the previous ended, the last one ends with the buffer
+func vc_binlogEvent_Rows_ensures_rows(ev binlogEvent, f BinlogFormat, tm *TableMap, out Rows, err error, pos int, data []byte) bool {
+	if err != nil {
+		return true
+	}
+	return vcRowsOK && vcRowStart == pos && pos == len(data)
+}
+
+// ---- case split of the unit by event type (exhaustive under requires: obligation case-cover) ----
+
+func vc_case_Rows_t23(ev binlogEvent, f BinlogFormat, tm *TableMap) bool {
+	return ev[4] == eWriteRowsEventV1
+}
+func vc_case_Rows_t24(ev binlogEvent, f BinlogFormat, tm *TableMap) bool {
+	return ev[4] == eUpdateRowsEventV1
+}
+func vc_case_Rows_t25(ev binlogEvent, f BinlogFormat, tm *TableMap) bool {
+	return ev[4] == eDeleteRowsEventV1
+}
+func vc_case_Rows_t30(ev binlogEvent, f BinlogFormat, tm *TableMap) bool {
+	return ev[4] == eWriteRowsEventV2
+}
+func vc_case_Rows_t31(ev binlogEvent, f BinlogFormat, tm *TableMap) bool {
+	return ev[4] == eUpdateRowsEventV2
+}
+func vc_case_Rows_t32(ev binlogEvent, f BinlogFormat, tm *TableMap) bool {
+	return ev[4] == eDeleteRowsEventV2
+}
